@@ -43,8 +43,8 @@ func pfDay(s string) int {
 func pfParse(s string) (y, m, d int, ok bool) {
 	i := strings.Index(s, "年")
 	j := strings.LastIndex(s, "月")
-	if i < 0 || j < i {
-		return
+	if i <= 0 || j < i {
+		return // no year digits at all is not a canonical form
 	}
 	for _, r := range s[:i] {
 		v, has := pfDigits[r]
